@@ -1983,6 +1983,13 @@ func (c *Cache) additionalAnswer(ctx context.Context, msg *dns.Msg) *dns.Msg {
 			// the exact locally validated proof provenance rather than
 			// attributing the NXDOMAIN to the outer alias owner.
 			msg.Rcode = dns.RcodeNameError
+			// The reply now states that the target does not exist. That is
+			// the hop's word, and AD may vouch for it only if the hop was
+			// authenticated too; a denial without a single record never went
+			// through the merge that would have cleared the alias's AD.
+			if msg.AuthenticatedData && !respCname.AuthenticatedData {
+				msg.AuthenticatedData = false
+			}
 			middleware.PropagateValidatedDenialResponse(ctx, respCname, msg)
 			// The outer response is now this denial, proof and all.
 			lineage.inherit()
